@@ -77,7 +77,7 @@ def orderkeys(ctx: Ctx):
         yield ctx.ob('C01.ORDERKEYS', False, fn, gen.ifs[0], 'filter', 'the returned dict is filtered by something other than membership in the results')
 
 
-@rule('C01.CAPTURE', ['C01'])
+@rule('C01.CAPTURE', ['C01', 'C17'])
 def capture(ctx: Ctx):
     """In the consumer loop the result of every requested task is captured as D[t] = get_result(t).value
     for the yielded task t, under a guard no narrower than `t in tasks`, and D is what run() returns."""
@@ -124,7 +124,7 @@ def capture(ctx: Ctx):
                          '' if okr else f'run() does not return the dict `{D}` the results are captured into (or rebinds it)')
 
 
-@rule('C09.LOOP', ['C09'])
+@rule('C09.LOOP', ['C09', 'C08'])
 def cached_tasks_loop(ctx: Ctx):
     """Lab.cached_tasks: all keys x all types, append-then-break on success (exactly once per key), and
     the only swallowed exception type is TaskNotFound."""
@@ -676,3 +676,30 @@ def wait_timeout(ctx: Ctx):
         yield ctx.ob('C11.WAIT-TIMEOUT', ok, cl.fn, call, 'runner.wait(timeout_seconds=<finite positive constant>)',
                      '' if ok else f'runner.wait is called with timeout `{src(e) if e is not None else "?"}`: with an unbounded wait a task process that is '
                      'killed outright as the last executing task is never noticed and run_tasks hangs')
+
+
+SIGNAL_API = {'signal.signal', 'signal.pthread_sigmask', 'signal.set_wakeup_fd', 'signal.siginterrupt', 'signal.setitimer', 'signal.alarm'}
+
+
+@rule('C14.WHO-MAY-SET-SIGNALS', ['C14', 'C13', 'C11', 'C10'])
+def who_may_set_signals(ctx: Ctx):
+    """Signal dispositions are changed in one place only: the worker entry function, in the child.  The calling process never
+    ignores, masks or re-routes SIGINT - not even briefly around process creation: an ignored signal is discarded by the
+    kernel, not deferred, so a Ctrl-C that lands in such a window is lost and run_tasks carries on as if nothing happened."""
+    we = roles.worker_entry(ctx)
+    child_side = {f.qualname for f in ctx.P.closure([we], include_nested=True)}
+    n = 0
+    for fn in ctx.P.all_functions():
+        for call in calls_in(fn.node):
+            d = dotted(call.func) or ''
+            r = ctx.P.resolve_dotted(fn.module, d) if d and not ctx.P._is_local_name(d.split('.')[0], fn) else None
+            if r not in SIGNAL_API:
+                continue
+            n += 1
+            ok = fn.qualname == we.qualname
+            yield ctx.ob('C14.WHO-MAY-SET-SIGNALS', ok, fn, call, f'{r} in {fn.short}',
+                         '' if ok else f'`{src(call)[:60]}` changes signal handling outside the worker entry function '
+                         f'({"child-side helper" if fn.qualname in child_side else "runs in the calling process"}): a Ctrl-C delivered while SIGINT is '
+                         'ignored or masked there is lost, and the previous handler may not be restored on every path')
+    if n < 1:
+        raise AnalysisError('no signal.signal call found in the package (the worker entry is expected to ignore SIGINT)')
